@@ -86,7 +86,7 @@ NormW(wr) ==
   [wr EXCEPT !.txs = {[wr.txs[t] EXCEPT !.id = 0] : t \in DOMAIN wr.txs},
              !.outs = [k \in DOMAIN wr.outs |->
                          [o |-> [wr.outs[k] EXCEPT !.tx = 0],
-                          e |-> IF wr.outs[k].tx = NoTx THEN [none |-> -1] ELSE ent(wr.outs[k].pa, wr.outs[k].tx)]]]
+                          e |-> IF wr.outs[k].tx = NoTx THEN [none |-> -1] ELSE ent(wr.outs[k].acct, wr.outs[k].tx)]]]
 NormWorld(x) == [x EXCEPT !.w = [n \in DOMAIN x.w |-> NormW(x.w[n])]]
 \* MatchState(x, e, what): x = observed next state, else print the difference
 MatchState(x, e, what) ==
